@@ -11,6 +11,7 @@ import (
 
 	"github.com/saucelabs/forwarder/ruleset"
 	"github.com/saucelabs/forwarder/verifharness/lib"
+	"github.com/saucelabs/forwarder/verifharness/wiring"
 )
 
 type rule struct {
@@ -371,5 +372,6 @@ func main() {
 	}
 	run.Floor("expected_match", 100)
 	run.Floor("permutations", int64(nLists))
+	wiring.Run(run, "C17")
 	run.Finish()
 }
